@@ -37,7 +37,7 @@ MANIFEST = dict(
     technique="Lean 4 proof (character-level case analysis with omega, mutual structural induction printer/parser, finite-state matcher invariant, "
               "list induction for scan/dedup) + differential correspondence",
 )
-PROP_FILES = ["HtmlVerif/Props/C13.lean", "HtmlVerif/Props/Consts.lean"]
+PROP_FILES = ["HtmlVerif/Props/C13.lean", "HtmlVerif/Props/ConstsJson.lean"]
 
 OPEN = '<script type="application/json" data-html-dependency="">'
 CLOSE = "</script>"
